@@ -233,4 +233,7 @@ pub fn run(g: &mut Global) {
         &check,
     );
     g.random("random", g.tier.pick(50000, 300000), &strategy, &check);
+    if g.tier == Tier::Thorough {
+        g.fuzz_stage("ops_pred", Some(4), 600_000, "random", &|b| crate::fuzzdec::decode_c17(b), &check);
+    }
 }
